@@ -9,6 +9,7 @@ import (
 	"go/constant"
 	"go/token"
 	"go/types"
+	"sbpfcheck/flow"
 	"sort"
 	"strings"
 
@@ -258,6 +259,9 @@ func (r *Resolver) of(v ssa.Value, fr *Frame, at ssa.Instruction) *O {
 				}
 			}
 		}
+		if over := countedIndex(x); over != nil {
+			return &O{Kind: KRangeKey, Type: x.Type(), Args: []*O{r.Of(over, fr, at)}, Val: v}
+		}
 		return &O{Kind: KBin, Op: x.Op, Type: x.Type(), Args: []*O{r.Of(x.X, fr, at), r.Of(x.Y, fr, at)}, Val: v}
 	case *ssa.UnOp:
 		if x.Op == token.MUL {
@@ -335,6 +339,10 @@ func (r *Resolver) of(v ssa.Value, fr *Frame, at ssa.Instruction) *O {
 		if x.Comment == "rangeindex" {
 			return &O{Kind: KRangeKey, Type: x.Type(), Args: []*O{{Kind: KUnknown, Name: "rangeindex", Val: x}}, Val: x}
 		}
+		// the variable of any other loop that visits every index of a sequence in order (`for i := 0; i < len(s); i++`)
+		if over := countedIndex(x); over != nil {
+			return &O{Kind: KRangeKey, Type: x.Type(), Args: []*O{r.Of(over, fr, at)}, Val: v}
+		}
 		var alts []*O
 		seen := map[string]bool{}
 		for _, e := range x.Edges {
@@ -390,6 +398,21 @@ func (r *Resolver) call(c *ssa.Call, fr *Frame, at ssa.Instruction) *O {
 		o.Name = "dynamic"
 	}
 	return o
+}
+
+// countedIndex: v is the index visited by the current iteration of a loop over all indices of a sequence, in any
+// spelling (flow.CountedLoops); returns the sequence.
+func countedIndex(v ssa.Value) ssa.Value {
+	in, ok := v.(ssa.Instruction)
+	if !ok || in.Parent() == nil {
+		return nil
+	}
+	for _, l := range flow.CountedLoops(in.Parent()) {
+		if l.IsIndex(v) {
+			return l.Over
+		}
+	}
+	return nil
 }
 
 // rangedValue finds X of `for i := range X` from the rotated loop header:
